@@ -183,6 +183,17 @@ func (p *ProviderData) setAllowedGroups(groups []string) {
 	}
 }
 
+// addAllowedGroups adds a provider specific group list to the AllowedGroups
+// map, keeping the groups that have already been set from `allowed_groups`
+func (p *ProviderData) addAllowedGroups(groups []string) {
+	if p.AllowedGroups == nil {
+		p.AllowedGroups = make(map[string]struct{}, len(groups))
+	}
+	for _, group := range groups {
+		p.AllowedGroups[group] = struct{}{}
+	}
+}
+
 type providerDefaults struct {
 	name        string
 	loginURL    *url.URL
